@@ -407,21 +407,51 @@ def rule_rows(chk, fb):
 
 def rule_space(chk, fb):
     rh = chk.rule("C02.h", "significant whitespace is marked: every writer of a <t> element adds xml:space=\"preserve\" under a test of the text's leading/trailing characters", floor=1)
-    n = 0
-    for d, h in sorted(fb.hir.items()):
-        if not d.split("::")[-1].startswith("write_to"):
+    WS_TESTS = ("starts_with", "ends_with", "trim", "trim_start", "trim_end", "first", "last", "is_whitespace", "contains", "chars")
+
+    def test_names(fn, depth=0):
+        """names of the calls made by crate fn `fn`, its closures and the crate helpers it calls"""
+        out = set()
+        for bd in [fn] + [c for c in fb.mir if c.startswith(fn + "::{closure")]:
+            for _, t in fb.calls_in(fb.mir[bd]):
+                f = t.get("fn", "")
+                out.add(f.split("::")[-1])
+                for a in t.get("args", []):
+                    if "cfn" in a:
+                        out.add(a["cfn"].split("::")[-1])
+                if f in fb.mir and f.startswith("structs::text::") and depth < 2:
+                    out |= test_names(f, depth + 1)
+        return out
+
+    for d, b in sorted(fb.mir.items()):
+        if not (d.startswith("structs::text::") and d.split("::")[-1].startswith("write_to")):
             continue
-        for c in hirq.calls(h["body"]):
-            if (c.get("def") or "").endswith("write_start_tag") and len(c.get("args", [])) >= 2 and hirq.lit_value(c["args"][1]) == "t" and d.startswith("structs::text::"):
-                has = any(hirq.lit_value(x["es"][0]) == "xml:space" for x in hirq.walk(h["body"]) if x.get("k") == "tup" and len(x.get("es", [])) == 2)
-                guarded = False
-                for x in hirq.walk(h["body"]):
-                    if x.get("k") == "if" and any(hirq.lit_value(y["es"][0]) == "xml:space" for y in hirq.walk(x["then"]) if y.get("k") == "tup" and len(y.get("es", [])) == 2):
-                        names = [cc.get("name") or "" for cc in hirq.calls(x["cond"])]
-                        guarded = any(nm in ("starts_with", "ends_with", "trim", "trim_start", "trim_end", "first", "last", "is_whitespace", "contains", "chars") for nm in names)
-                chk.touch(d)
-                chk.ob(rh, "%s" % d, has and guarded, where="%s:%s" % (h["file"], c["ln"]), detail="writes <t>: xml:space attribute present: %s, under a whitespace test: %s" % (has, guarded))
-                n += 1
+        h = fb.hir.get(d)
+        if not h or not any((c.get("def") or "").endswith("write_start_tag") and len(c.get("args", [])) >= 2 and hirq.lit_value(c["args"][1]) == "t" for c in hirq.calls(h["body"])):
+            continue
+        fl = Flow(fb, b)
+        cfg = CFG(b)
+        sites = [bi for bi, bl in enumerate(b["blocks"]) for st in bl["s"] if st["k"] == "assign" and st["rv"]["k"] == "use" and st["rv"]["op"].get("s") == "xml:space"]
+        guarded = False
+        for bi in sites:
+            for x in cfg.control_deps_transitive(bi):
+                tt = b["blocks"][x]["t"]
+                if tt["k"] != "switch":
+                    continue
+                names = set()
+                for a in fl.atoms(tt["op"]):
+                    if a[0] == "call":
+                        names.add(a[1].split("::")[-1])
+                        if a[1] in fb.mir:
+                            names |= test_names(a[1])
+                    if a[0] == "cfn":
+                        names.add(a[1].split("::")[-1])
+                        if a[1] in fb.mir:
+                            names |= test_names(a[1])
+                if names & set(WS_TESTS):
+                    guarded = True
+        chk.touch(d)
+        chk.ob(rh, "%s" % d, bool(sites) and guarded, where=fb.loc(d), detail="writes <t>: xml:space attribute present: %s, under a whitespace test: %s" % (bool(sites), guarded))
 
 
 def rule_sheet_names(chk, fb, rid="C02.i"):
